@@ -163,9 +163,10 @@ def _get_paired_crop(
     """
     assert prediction_arr.shape == reference_arr.shape
 
-    combined = prediction_arr + reference_arr
-    if combined.sum() == 0:
-        combined += 1
+    # combine via the foreground masks: adding the label arrays wraps around in their own dtype (e.g. 255 + 1 == 0 in uint8)
+    combined = np.logical_or(prediction_arr != 0, reference_arr != 0)
+    if not combined.any():
+        combined[...] = True
     return _get_bbox_nd(combined, px_dist=px_pad)
 
 
